@@ -12,7 +12,7 @@ PROPS = "Registry/Props_C19.v"
 GEN = "Registry/Generated_Registry.v"
 COQ_FILES = ["Registry/Plugin.v", "Registry/Generated_Registry.v", "Registry/Cases.v", "Registry/Proofs.v",
              "Registry/Props_C19.v"]
-LOGIC_THEOREMS = ["validate_iff_satisfies", "filter_keeps_exactly_valid", "filtered_config_validates",
+LOGIC_THEOREMS = ["validate_iff_satisfies", "filter_keeps_exactly_valid", "filter_does_not_modify_input", "filtered_config_validates",
                   "validation_succeeds_iff_all_satisfied", "filter_from_capabilities_validates",
                   "from_names_resolves_iff", "enable_required_sound"]
 DATA_THEOREMS = ["names_unique", "every_name_resolves", "own_name_resolves_to_self",
@@ -46,7 +46,7 @@ META = {
 
 
 def _key(c):
-    return json.dumps([c.get(k) for k in ("fn", "kind", "req", "caps", "input", "fs", "sa", "det", "fake_required")])
+    return json.dumps([c.get(k) for k in ("fn", "kind", "req", "caps", "caps2", "input", "fs", "sa", "det", "fake_required")])
 
 
 def describe(c):
@@ -209,7 +209,10 @@ def run(ctx):
         "explanation": "finite domain enumerated completely: 60x60 validator inputs; all registered plugins x 60 capability "
                        "tuples; FilterByCapabilities/FromCapabilities for every tuple and kind; all names; all 2^n detector "
                        "subsets for EnableRequiredExtractors; the Scan preparation on FromCapabilities x 3 for every tuple "
-                       "(and restricted to each single detector). Seeded extras: random filter inputs with repetitions, "
+                       "(and restricted to each single detector). Histories on shared inputs: ONE list object (instantiated from All, and the "
+                       "list a name resolution returned) filtered for every ordered pair of capability tuples (filesystem list: 32x32 "
+                       "documented environments in quick, 60x60 in thorough) with the caller's slice compared to its pre-call copy after "
+                       "each call; name resolution and EnableRequiredExtractors called twice on one names slice / one config. Seeded extras: random filter inputs with repetitions, "
                        "random 3..5-name lists, random fake detectors requiring arbitrary names.",
     })
     ctx.coverage["trusted_base"] = vlib.std_trusted_base(pa, [
@@ -221,6 +224,8 @@ def run(ctx):
                         "fresh instances of one InitFn have the same description (checked: the translator and the "
                         "observer instantiate separately)",
                         "strings are represented by their rank in the sorted string table of the generated file"]
+    spec_bad = sorted(spec_bad, key=lambda i: (len(cases[i]["coq"]), i))    # smallest failing cases first
+    corr_bad = sorted(corr_bad, key=lambda i: (len(cases[i]["coq"]), i))
     vlib.standard_decide(ctx, pa, corr_bad, spec_bad, cases, describe, THEOREMS, CORR)
 
 
